@@ -820,7 +820,7 @@ def u_prm_other_length(W, sk):
 @unit(
     "lifetime.tables_follow_current_parameters",
     props=["C17", "C03", "C09", "C10", "C16", "C08"],
-    not_clauses={p: ["after_set_prms.sf_is_table_of_current_parameters", "set_prms.*"] for p in ("C03", "C09", "C10", "C16")},
+    not_clauses={p: ["after_set_prms.sf_is_table_of_current_parameters", "set_prms.*", "after_inadmissible_set_prms.*"] for p in ("C03", "C09", "C10", "C16")},
     only_clauses={"C08": ["after_set_prms.sf_is_table_of_current_parameters", "after_set_prms.pdf_is_table_of_current_parameters", "set_prms.*"]},
     targets=[
         "flodym.lifetime_models.StandardDeviationLifetimeModel.set_prms",
@@ -936,6 +936,32 @@ def u_tables_follow_prms(W, sk):
     W.forall_range("after_set_prms.pdf_is_table_of_current_parameters", rngs, lambda idx: W.num_eq(W.elem(pa, idx), M.pdf_spec(sf, idx[0], idx[1], idx[2:])), detail="the outflow-probability table read after set_prms must be derived from the current survival table")
     if W.symbolic:
         W.prove("history.no_loop_contract_left_over", not W.c.loop_contracts, kind="invariant")
+    elif sk["dist"] in ("Normal", "Weibull"):
+        # history with a call that hands over inadmissible parameters (a negative mean / shape, as a sampling loop may
+        # draw them): whether set_prms refuses them or the next read does, the model must afterwards behave like a
+        # freshly built model with the parameters it now holds -- never old tables next to new parameters
+        import numpy as np
+        from flodym.dimensions import DimensionSet
+
+        names_ = list(PRMS[sk["dist"]])
+        bad = {p_: np.array(new[p_], copy=True) for p_ in names_}
+        k_ = W.rng.randrange(bad[names_[0]].size)
+        bad[names_[0]].flat[k_] = -0.5 - W.rng.random()
+        W.inputs["inadmissible_parameters"] = {p_: v_.tolist() for p_, v_ in bad.items()}
+        W.call(lambda: lm.set_prms(**bad))
+        o2 = W.call(lambda: lm.sf)
+        held = {p_: np.array(getattr(lm, p_), copy=True) for p_ in names_}
+        fr = W.call(lambda: M.cls(dims=DimensionSet(dim_list=M.dims), time_letter="t", inflow_at=lm.inflow_at, n_pts_per_interval=lm.n_pts_per_interval, **held))
+        o3 = W.call(lambda: fr.value.sf) if fr.kind == "return" else fr
+        same = o2.kind == o3.kind and (o2.kind != "return" or (np.shape(o2.value) == np.shape(o3.value) and np.allclose(o2.value, o3.value, rtol=1e-9, atol=1e-12)))
+        W.prove("after_inadmissible_set_prms.read_behaves_like_a_fresh_model_with_the_held_parameters", same, detail=f"used model: {o2!r:.200}; fresh model with the held parameters: {o3!r:.200}")
+        # ... and admissible parameters afterwards are followed again
+        W.call(lambda: lm.set_prms(**new))
+        o4 = W.call(lambda: lm.sf)
+        ok4 = o4.kind == "return"
+        W.prove("after_inadmissible_set_prms.then_admissible.sf_returns", ok4, detail=repr(o4)[:200])
+        if ok4:
+            W.forall_range("after_inadmissible_set_prms.then_admissible.sf_is_table_of_current_parameters", rngs, lambda idx: W.num_eq(W.elem(o4.value, idx), M.table(idx[0], idx[1], idx[2:])))
 
 
 @unit(
